@@ -190,6 +190,9 @@ func (wt writeTxn) Create(v interface{}) error {
 	if vv.Type() != t {
 		return fmt.Errorf("create value is of type %s, expected type %s", vv.Type().String(), t.String())
 	}
+	if wt.id == "" {
+		return errors.New("empty ID string")
+	}
 
 	err := wt.st.DB.Update(func(txn *badger.Txn) error {
 		// Validate that the resource doesn't exist
